@@ -90,6 +90,8 @@ def run_case(case, opts):
         return members
 
     converter = PlanConverter(dom)
+    ma_exporter = MultiAgentTrajectoryExporter(dom)
+    ma_parser = TrajectoryParser(dom, prob)
 
     def snap():
         s = {k: pylib.project_state(v) for k, v in states.items()}
@@ -150,7 +152,7 @@ def run_case(case, opts):
                      for members in plan]
             h = fresh("jr")
             try:
-                triplets = MultiAgentTrajectoryExporter(dom).parse_plan(prob, action_sequence=lines, allow_inapplicable_actions=allow)
+                triplets = ma_exporter.parse_plan(prob, action_sequence=lines, allow_inapplicable_actions=allow)
                 runs[h] = triplets
                 ev.append({"c": "RunJointPlan", "h": h, "d": "d", "p": "p", "plan": plan, "allow": allow,
                            "out": {"steps": proj_joint_steps(triplets)}})
@@ -163,7 +165,7 @@ def run_case(case, opts):
                 ev.append({"c": "ExportJointTrajectory", "r": h, "out": {"tree": sexp_reader.read(text)}})
                 p = pylib.write_tmp(text, ".trajectory")
                 try:
-                    obs = TrajectoryParser(dom, prob).parse_trajectory(p, executing_agents=agents)
+                    obs = ma_parser.parse_trajectory(p, executing_agents=agents)
                     comps = [{"pre": pylib.project_state(c.previous_state),
                               "op": [[a.name, list(a.parameters)] for a in c.grounded_joint_action.actions],
                               "post": pylib.project_state(c.next_state)} for c in obs.components]
